@@ -308,6 +308,15 @@ func genGeometryStep(r *simrt.Rand, l latticeCfg, tols []float64) Step {
 		return Step{Op: "flatten", A: a, Tol: tols[r.Intn(len(tols))]}
 	case x < 82:
 		return Step{Op: []string{"clip", "simplify", "gridsnap"}[r.Intn(3)], A: genShape(r, l), W: l.cell * (0.5 + float64(r.Intn(3))), Tol: []float64{0.1, 0.5, 2}[r.Intn(3)]}
+	case x < 86:
+		switch r.Intn(3) {
+		case 0:
+			return Step{Op: "measure", A: curvyOr(), FillRule: r.Intn(4)}
+		case 1:
+			return Step{Op: "split", A: curvyOr(), W: l.cell * (0.3 + float64(r.Intn(4))), Tol: []float64{0.2, 1}[r.Intn(2)], AsPaths: r.Bool(0.5)}
+		default:
+			return Step{Op: "svgpath", A: curvyOr(), Opt: []int{0, 30, 90, 135}[r.Intn(4)], W: []float64{1, 0.5, -1}[r.Intn(3)]}
+		}
 	case x < 96:
 		n := 1 + r.Intn(3)
 		d := make([]float64, n)
@@ -651,6 +660,10 @@ func GenRun(verifSeed uint64, run int, tier string, profiles []string) *RunSpec 
 			case "flatten":
 				if wl.Bool(0.15) {
 					st.Repeat = true
+				}
+			case "measure", "split":
+				if s > 0 && wl.Bool(0.5) {
+					st.ChainA = true // read-only use of the previous result
 				}
 			case "richtext":
 				if wl.Bool(0.3) {
